@@ -128,9 +128,13 @@ T = "ㄱㄴㄷㄹㅁㅂㅅㅈ"
 def _codec_chunk(arg):
     parse = mods()[0]; kind, lo, hi = arg; out = []
     if kind == "enc":
-        for n in range(lo, hi): out.append(parse.encode_number(n))
+        for n in range(lo, hi):
+            try: out.append(parse.encode_number(n))
+            except BaseException as e: out.append(vlib.host_site(e))
     else:
-        for w in hi: out.append(str(parse.parse_number(w)))
+        for w in hi:
+            try: out.append(str(parse.parse_number(w)))
+            except BaseException as e: out.append(vlib.host_site(e))
     return out
 def c08_codec(r, seed, tier, model_ok):
     """exhaustive: encode_number on every |n| < 2^k and parse_number on every digit word up to length L, against the extracted
@@ -142,6 +146,7 @@ def c08_codec(r, seed, tier, model_ok):
     dec = [x for part in pmap(_codec_chunk, [("dec", 0, words[i:i + 20000]) for i in range(0, len(words), 20000)], chunksize=1) for x in part]
     bad = []
     def value(w):
+        if not w or any(c not in T for c in w): return None
         v = sum(T.index(c) * 8 ** i for i, c in enumerate(w)); return -v if len(w) % 2 == 0 else v
     for n, w in zip(ints, enc):
         if value(w) != n: bad.append(dict(program=f"encode_number({n})", impl=w, model=f"a word of value {n}", which=["roundtrip"]))
@@ -158,14 +163,16 @@ def c08_codec(r, seed, tier, model_ok):
     bigs = [R.choice([-1, 1]) * R.getrandbits(R.choice([64, 200, 1000, 4096])) for _ in range(N(tier, 300, 5000))]
     parse = mods()[0]
     for n in bigs:
-        w = parse.encode_number(n)
-        if parse.parse_number(w) != n or parse.parse_number(w + "ㄱㄱ") != n: bad.append(dict(program=f"encode_number({n})", impl=w, model="round trip", which=["roundtrip-big"]))
+        try:
+            w = parse.encode_number(n)
+            if parse.parse_number(w) != n or parse.parse_number(w + "ㄱㄱ") != n or value(w) != n: bad.append(dict(program=f"encode_number({n})", impl=w, model="a spelling whose value is n", which=["roundtrip-big"]))
+        except BaseException as e: bad.append(dict(program=f"encode_number({n})", impl=vlib.host_site(e), model="a spelling whose value is n", which=["roundtrip-big"]))
     r.slice("codec_exhaustive", len(ints) + len(words) + len(bigs), len(ints) + len(words), [f"{ints[5]} -> {enc[5]}", f"{words[100]} -> {dec[100]}"],
             dict(int_bound=f"|n| < 2^{k}", word_length=L, big_integers=len(bigs)), f"exhaustive |n| < 2^{k}, every word of length <= {L}, random integers up to 4096 bits; against positional notation", bad[:50])
     r.extra["exhaustive"] = True
     if model_ok:
         me = vlib.driver("driver", [f"E\t{n}" for n in ints]); md = vlib.driver("driver", ["D\t" + "".join(str(T.index(c)) for c in w) for w in words])
-        bad2 = [dict(program=f"encode({n})", impl=w, model=m, which=["encode"]) for n, w, m in zip(ints, enc, me) if "".join(str(T.index(c)) for c in w) != m]
+        bad2 = [dict(program=f"encode({n})", impl=w, model=m, which=["encode"]) for n, w, m in zip(ints, enc, me) if "".join(str(T.index(c)) if c in T else "?" for c in w) != m]
         bad2 += [dict(program=f"decode({w})", impl=d, model=m, which=["decode"]) for w, d, m in zip(words, dec, md) if d != m]
         r.slice("codec_vs_model", len(ints) + len(words), len(ints) + len(words), [f"model encode {ints[7]} = {me[7]}"], dict(), "the same exhaustive sets against the extracted Num.encode / Num.decode", bad2[:50])
 
